@@ -388,7 +388,12 @@ example : (detect { exCfg with dir := .any } genHerm ⟨false, 3, 4⟩ exSamples
     [(0, false, 1 / 4), (2, false, 7 / 4), (3, false, 4)] := by decide +kernel
 example : (detect { exCfg with dir := .neg } genHerm ⟨true, 0, 2⟩ exSamples).length = 1 := by decide +kernel
 example : exSamples.Pairwise (fun a b => a.t ≤ b.t) := by decide +kernel
-example : True := by
-  trivial
+/-- the hypotheses of `detect_exactly_once` hold on the trajectory without its on-surface sample (3 crossings of
+either direction, further apart than the tolerances) -/
+example : let cfg := { exCfg with dir := .any }
+    cfg.maxHits = none ∧
+    NoDupFrom cfg none ((segs (exSamples.take 4)).filterMap (segCand cfg genHerm ⟨false, 0, 4⟩)) ∧
+    ((segs (exSamples.take 4)).filterMap (segCand cfg genHerm ⟨false, 0, 4⟩)).length = 2 := by
+  decide +kernel
 
 end HitenModel.Props.C15
